@@ -71,8 +71,8 @@ def rand_value(rng, kind=None):
 
 def lit_text(rng, v=None):
     """-> (text, parsed value as the LiteralValue holds it: int / float / None)"""
-    r = rng.random()
     if v is None:
+        r = rng.random()
         if r < 0.04:
             return 'unavailable', None
         if r < 0.08:
